@@ -472,6 +472,9 @@ func runC05(c *Ctx) {
 			ok := err == nil && rr != nil && rr.Header().Rrtype == uint16(code)
 			c.Pred("type-codes", "type-text:"+spellingKind(spelling), txt, ok, fmt.Sprint(err), fmt.Sprint("type ", code), spelling == ts)
 		}
+		// the model of Type.String / Class.String (theorems printed_type_read_back / printed_class_read_back)
+		c.Op("type-codes", fmt.Sprintf("type.print %d", code), hxs(ts), true)
+		c.Op("class-codes", fmt.Sprintf("class.print %d", code), hxs(dns.Class(code).String()), true)
 		cs := dns.Class(code).String()
 		for _, spelling := range []string{cs, fmt.Sprintf("CLASS%d", code)} {
 			txt := fmt.Sprintf("x.example.\t3600\t%s\tA\t192.0.2.1", spelling)
